@@ -229,6 +229,12 @@ def run_item(item, tier):
                     check_text(st, pre + f'{el} a[{ln}];\nempty @is_you() {{ }}', f'global {el} array of length {ln} (unused)', W=W)
                     check_text(st, pre + f'empty @is_you() {{ {el} a[{ln}]; write(a.length); }}', f'local {el} array of length {ln}', W=W)
                     check_text(st, pre + f'{el}[] a = [];\n{el} b[{ln}];\nempty @is_you() {{ write(a.length + b.length); }}', f'global {el} arrays, empty literal + length {ln}', W=W)
+        # array literals with explicit casts in every role (they keep the const flexibility of literals)
+        for t, lit_ in (('int', '[1, 2]'), ('byte', "['a', 'b']"), ('byte', '[1, 2]'), ('bool', '[true, false]'), ('int', '[1, x]'), ('byte', "[x is byte, 'q']")):
+            for use in ('{t}[] a = {l} is {t}[]; a[0] = a[1]; write(a.length);', 'const {t}[] a = {l} is {t}[]; write(a.length);', 'g({l} is {t}[]);', 'h({l} is {t}[]);',
+                        '{t}[] a = {l} is {t}[]; g(a); h(a);', 'write(({l} is {t}[]).length);', '{t}[] a = {l}; g(a); h(a); a[1] = a[0];'):
+                src = f'empty g({t}[] p) {{ p[0] = p[1]; }} empty h(const {t}[] p) {{ write(p.length); }} empty @is_you(int x) {{ ' + use.format(t=t, l=lit_) + ' }'
+                check_text(st, src, f'array literal {lit_} cast to {t}[] used as {use[:24]}')
         # undefined / misspelt calls in every flavour (the compiler offers hints for some of them)
         for name in ('print', 'println', 'printx', 'writ', 'write', 'writeln', 'sleep', 'is_defeat', 'truth_is_defeat', 'all_is_win', 'debug', 'length'):
             for fl in ('', '@', '!'):
@@ -267,6 +273,7 @@ def run_item(item, tier):
 CLI_PROGS = {
     'ok': 'empty @is_you(int x) { writeln(x + 1); }\n',
     'ok_big': 'int[] g = [1, 2, 3];\nempty @is_you(const string[] a) { for (int i = 0; i < a.length; i += 1) { writeln(a[i]); } write(g[1] ?? 0); }\n',
+    'ok_const': 'const int K = 30000 + 30000;\nint g = 65536 + 7;\nempty @is_you() { writeln((30000 + 30000) / 2); writeln(0 == 65536); writeln(K / 3); writeln(g); writeln(-32768 < 0); writeln((255 + 1) is byte is int); }\n',
     'lex': 'empty @is_you() { write("unterminated); }\n',
     'parse': 'empty @is_you() { write(1) }\n',
     'type': 'empty @is_you() { int x = "s"; }\n',
@@ -324,7 +331,8 @@ def cli_case(st, d, k, prog, m, s, unchecked, lint_, oflag):
         elif not os.path.exists(out):
             st.viol(f'{what}: exit status 0 but no output file', case)
         else:
-            lines = open(out, 'rb').read().split(b'\n')
+            data = open(out, 'rb').read()
+            lines = data.split(b'\n')
             try:
                 svm.assemble(lines, dummy_argv(lines), strict_header=True)
                 st.add('accepted')
@@ -332,6 +340,15 @@ def cli_case(st, d, k, prog, m, s, unchecked, lint_, oflag):
                 st.add('accepted')
             except svm.AsmError as e:
                 st.viol(f'{what}: exit status 0 but the assembler rejects the output: {e}', case, key=f'asm:{str(e)[:40]}')
+            # driver parity: the file must be exactly what the library pipeline produces for the same options
+            try:
+                api = b''.join(l + b'\n' for l in hid.compile_lines(CLI_PROGS[prog], m // 8, s, unchecked, lint_))
+            except Exception as e:
+                api = f'{type(e).__name__}: {e}'.encode()
+            if api != data:
+                st.viol(f'{what}: the file written by the command-line driver differs from the output of parse/evaluate/CodeGen for the same options', case, key='parity')
+            else:
+                st.add('driver_parity')
     else:
         if os.path.exists(out):
             st.viol(f'{what}: exit status {p.returncode} but an output file was left behind', case)
@@ -411,7 +428,7 @@ def coverage(total, tier):
             'calls': '12 builtin-like names x 3 flavours x 6 argument lists in you-function, try body, defeat function and next to a user definition of the same name',
             'literals': 'integer literals of 1..39, 100, 1000, 4299..4301, 5000 digits in every base; \\u{..} with 1..20 digits; each of the 256 first code points raw '
                         'in a string, at top level and in a comment; empty/CRLF/BOM/no-newline files; word sizes {0,1,-1,2,3,8,16,64} x stack sizes {-500,-1,0,1,2,500,1e6,1e9,1e30}',
-            'cli': f'{len(cli_grid(tier))} invocations: 8 programs (ok, lex/parse/type/codegen errors, lint) x -m {{-8,0,8,12,16,24,64}} x -s {{-1,0,1,500,1e9}} x '
+            'cli': f'{len(cli_grid(tier))} invocations (successful ones must be byte-identical to the library pipeline): 9 programs (ok, lex/parse/type/codegen errors, lint) x -m {{-8,0,8,12,16,24,64}} x -s {{-1,0,1,500,1e9}} x '
                    '--unchecked x --lint x -o given/omitted; 11 file-encoding cases',
         },
     }
